@@ -13,6 +13,7 @@ import (
 	"path/filepath"
 	"sort"
 	"strings"
+	"sync/atomic"
 	"syscall"
 	"time"
 	"unicode/utf8"
@@ -61,11 +62,10 @@ type TreeConfig struct {
 var baseNames = []string{"a", "b", "c", "dir", "file.txt", "x.o", "sub", "data", "keep", "build", "node_modules", ".git", "README", "é", "with space"}
 
 // UniqueToken returns content that is unique within the process.
-var tokenCounter int64
+var tokenCounter atomic.Int64
 
 func UniqueToken(r *rand.Rand, size int) []byte {
-	tokenCounter++
-	head := []byte(fmt.Sprintf("token-%d-%d|", tokenCounter, r.Int63()))
+	head := []byte(fmt.Sprintf("token-%d-%d|", tokenCounter.Add(1), r.Int63()))
 	if size <= len(head) {
 		return head
 	}
